@@ -571,17 +571,74 @@ def edgeworth_cdf(k, mean, var, skew, exkurt, upper=False):
 
 
 class BinomialLaw(LatticeLaw):
+    def __new__(cls, n, p):
+        if float(p) > 0.5 and float(p) < 1.0:
+            return FlippedBinomialLaw(n, p)
+        return super().__new__(cls)
+
     def __init__(self, n, p):
         self.n, self.p = int(n), float(p)
         self.support = (0, self.n)
         q = 1.0 - self.p
         self.var = self.n * self.p * q
-        self.big = self.var > 1e6 or self.n > 2 ** 52
+        self.big = self.var > 1e6
+        self.loose = False
 
     def _cum(self):
         n, p = self.n, self.p
         q = 1 - p
         return n * p, self.var, (q - p) / math.sqrt(self.var), (1 - 6 * p * q) / self.var
+
+    def _mode(self):
+        """which evaluation route applies (p <= 1/2 here; larger p is handled by FlippedBinomialLaw)"""
+        if self.var > 1e6:
+            return 'edgeworth'
+        if self.n <= 10 ** 6:
+            return 'scipy'
+        if self.n * self.p <= 2e4:
+            return 'table'
+        self.loose = True          # scipy's betainc sees the rounded 1 - p: relative error ~ n 2^-53
+        return 'scipy'
+
+    def _table(self):
+        """exact pmf table in 40-digit arithmetic: ln pmf(k) = sum_{j<k} ln((n-j)/(j+1)) + k ln p + (n-k) ln(1-p),
+        with ln(1-p) through log1p (scipy's incomplete beta would use the rounded 1 - p, off by n 2^-53)"""
+        if getattr(self, '_tab', None) is None:
+            old = mp.mp.dps
+            mp.mp.dps = 40
+            n, p = self.n, mp.mpf(self.p)
+            sd = math.sqrt(max(self.var, 0.0))
+            K = int(min(n, math.ceil(self.n * self.p + 14 * sd + 40)))
+            lp, lq = mp.log(p), mp.log1p(-p)
+            logc = mp.mpf(0)
+            pm = []
+            for k in range(K + 1):
+                pm.append(mp.exp(logc + k * lp + (n - k) * lq))
+                logc += mp.log(mp.mpf(n - k) / (k + 1))
+            cum, acc = [], mp.mpf(0)
+            for v in pm:
+                acc += v
+                cum.append(acc)
+            up, acc = [], mp.mpf(0)
+            for v in reversed(pm):
+                up.append(acc)
+                acc += v
+            up.reverse()
+            self._tab = (K, [float(c) for c in cum], [float(u) for u in up])
+            mp.mp.dps = old
+        return self._tab
+
+    def _tab_eval(self, k, upper):
+        K, cum, up = self._table()
+        out = []
+        for v in k:
+            if v < 0:
+                out.append(1.0 if upper else 0.0)
+            elif v > K:
+                out.append(0.0 if upper else 1.0)
+            else:
+                out.append(up[int(v)] if upper else cum[int(v)])
+        return np.array(out)
 
     def cdf(self, k):
         k = np.floor(_arr(k))
@@ -589,11 +646,11 @@ class BinomialLaw(LatticeLaw):
             return np.where(k >= 0, 1.0, 0.0)
         if self.p == 1.0:
             return np.where(k >= self.n, 1.0, 0.0)
-        if self.big and self.var > 1e6:
+        mode = self._mode()
+        if mode == 'edgeworth':
             return np.where(k >= self.n, 1.0, edgeworth_cdf(k, *self._cum()))
-        if self.big:
-            # huge n, tiny p: Poisson limit with first-order correction is below 1e-12 when p < 1e-13
-            return PoissonLaw(self.n * self.p).cdf(k)
+        if mode == 'table':
+            return np.where(k >= self.n, 1.0, self._tab_eval(k, False))
         kk = np.clip(k, 0, self.n)
         r = special.betainc(self.n - kk, kk + 1.0, 1.0 - self.p)
         return np.where(k < 0, 0.0, np.where(k >= self.n, 1.0, r))
@@ -604,10 +661,11 @@ class BinomialLaw(LatticeLaw):
             return np.where(k >= 0, 0.0, 1.0)
         if self.p == 1.0:
             return np.where(k >= self.n, 0.0, 1.0)
-        if self.big and self.var > 1e6:
+        mode = self._mode()
+        if mode == 'edgeworth':
             return np.where(k >= self.n, 0.0, edgeworth_cdf(k, *self._cum(), upper=True))
-        if self.big:
-            return PoissonLaw(self.n * self.p).sf(k)
+        if mode == 'table':
+            return np.where(k >= self.n, 0.0, self._tab_eval(k, True))
         kk = np.clip(k, 0, self.n)
         r = special.betainc(kk + 1.0, self.n - kk, self.p)
         return np.where(k < 0, 1.0, np.where(k >= self.n, 0.0, r))
@@ -619,6 +677,36 @@ class BinomialLaw(LatticeLaw):
 
     def mean_sd(self):
         return self.n * self.p, math.sqrt(self.var)
+
+
+class FlippedBinomialLaw(LatticeLaw):
+    """Binomial(n, p) for p > 1/2 as n - Binomial(n, 1 - p); n - k is formed in exact integer arithmetic
+    (n may exceed 2^53, where a float64 difference would be off by up to 16 units)"""
+
+    def __init__(self, n, p):
+        self.n, self.p = int(n), float(p)
+        self.support = (0, self.n)
+        self.y = BinomialLaw(self.n, 1.0 - self.p)
+        self.var = self.y.var
+        self.big = self.y.big
+
+    def _j(self, k):
+        return np.array([float(self.n - int(v) - 1) for v in np.floor(_arr(k))])
+
+    def cdf(self, k):
+        # P(X <= k) = P(Y >= n - k) = P(Y > n - k - 1)
+        return self.y.sf(self._j(k))
+
+    def sf(self, k):
+        return self.y.cdf(self._j(k))
+
+    def ppf(self, q):
+        yq = self.y.ppf(1.0 - _arr(q))
+        return np.array([float(self.n - int(v)) for v in yq])
+
+    def mean_sd(self):
+        m, sd = self.y.mean_sd()
+        return float(self.n - int(round(m))), sd
 
 
 class GeometricLaw(LatticeLaw):
